@@ -20,8 +20,8 @@
 (*                                                                         *)
 (* TLC, on the rational model p_i in PVals, m_i in MVals, 1..MaxK          *)
 (* components: every obligation holds of the ideal values and of the       *)
-(* machine values (Sound), and every named mutation of the machine that    *)
-(* changes an observable value breaks an obligation (Complete - the        *)
+(* machine values (Sound), and whatever a named mutation of the machine     *)
+(* reports that differs from the ideal values breaks an obligation (the    *)
 (* obligations are not vacuous).  Every scenario is emitted for replay.    *)
 (***************************************************************************)
 EXTENDS MatTerms, FiniteSets, Json
@@ -150,10 +150,10 @@ Sound ==
     LET os == Obligations(sc, Len(comps)) IN
     /\ AllHoldQ(os, ScEnv(sc, Ps, Ms, Ideal3))                 \* the obligations are theorems of the ideal formulas
     /\ AllHoldQ(os, ScEnv(sc, Ps, Ms, Mach3))                  \* and the transcribed algorithm satisfies them
-    /\ \A mu \in Mutants :                                     \* a mutation that changes what is observed is noticed
+    /\ \A mu \in Mutants :                                     \* whatever differs from the ideal values is noticed
           LET MutF(md, ps, ms) == MachX(md, ps, ms, mu)
               e == ScEnv(sc, Ps, Ms, MutF)
-          IN  e # ScEnv(sc, Ps, Ms, Mach3) => ~AllHoldQ(os, e)
+          IN  e # ScEnv(sc, Ps, Ms, Ideal3) => ~AllHoldQ(os, e)
     \* one record per structure and proportion vector (the model masses do not reach the harness)
     /\ (Emit /\ \A i \in 1..Len(comps) : comps[i].m = ((i - 1) % Cardinality(MVals)) + 1) => PrintT(ToJson(Record))
 =============================================================================
